@@ -32,7 +32,8 @@ def file_family(tier):
             ('offsets', ['header', 'text']),
             ('stext', [None, 'after', 'before']),
             ('analysis', [None, 'header', 'text']),
-            ('n', [3, 1, 0])]
+            ('n', [3, 1, 0]),
+            ('seg_order', [None] + c01.SEG_ORDERS)]
     bases = [dict(kind='int', widths=[16, 16], byteord='4,3,2,1', rk=['full', 'npot']),
              dict(kind='int', widths=[8, 24], byteord='1,2,3,4', rk=['full', 'full']),
              dict(kind='int', widths=[32], byteord='1,2', rk=['smaller']),
@@ -59,6 +60,8 @@ def file_family(tier):
             c = dict(base)
             c.update(stext='after', analysis=an, version='FCS3.1')
             yield c
+            for so in c01.SEG_ORDERS:
+                yield dict(c, seg_order=so)
 
 
 def cases(tier, seed):
